@@ -532,3 +532,55 @@ def cexp(a):
         m = exp(a.re) if not iszero(a.re) else 1
         return Cx(mul(m, cos(a.im)), mul(m, sin(a.im)))
     return exp(a)
+
+
+def axioms_for(formulas, kinds=None, neg_closure=False, extra=None, tight=False):
+    """Sound UF axioms instantiated only for the transcendental applications that occur in ``formulas`` (z3 terms) --
+    a per-obligation cone of influence of ``UF.axioms()`` (which instantiates over every application ever made and
+    grows quadratically).  kinds: restrict to these function names; extra: {name: [argument terms]} additional
+    instantiation points; neg_closure: also instantiate at -a for every tanh/sin argument a (oddness);
+    tight: add (sound) polynomial bounds  |tanh a| <= |a|, tanh(a)(1+|a|) >= a (a>=0), exp(a)(1-a) <= 1 (a<1),
+    cos a >= 1 - a^2/2, |sin a| <= |a|, cos^2+sin^2 = 1."""
+    F = UF.f
+    byname = {f.name(): n for n, f in F.items()}
+    apps, seen, stack = {}, set(), [toz(f) for f in formulas if isz(f)]
+
+    def put(n, a):
+        L = apps.setdefault(n, [])
+        if not any(a.eq(x) for x in L):
+            L.append(a)
+
+    while stack:
+        u = stack.pop()
+        if u.get_id() in seen:
+            continue
+        seen.add(u.get_id())
+        if z3.is_app(u):
+            n = byname.get(u.decl().name())
+            if n is not None and u.num_args() == 1 and u.decl().eq(F[n]) and (kinds is None or n in kinds):
+                put(n, u.arg(0))
+            stack.extend(u.children())
+    for n, L in (extra or {}).items():
+        for a in L:
+            put(n, toreal(toz(a)))
+    if neg_closure:
+        for n in ("tanh", "sin"):
+            for a in list(apps.get(n, [])):
+                put(n, z3.simplify(-a))
+    sub = UFRegistry.__new__(UFRegistry)
+    sub.f, sub.f2, sub.apps, sub.side = UF.f, UF.f2, apps, []
+    ax = sub.axioms()
+    if tight:
+        for a in apps.get("tanh", []):
+            t = F["tanh"](a)
+            ax += [z3.Implies(a > 0, z3.And(t < a, t * (1 + a) >= a)), z3.Implies(a < 0, z3.And(t > a, t * (1 - a) <= a))]
+        for a in apps.get("exp", []):
+            ax.append(z3.Implies(a < 1, F["exp"](a) * (1 - a) <= 1))
+        for a in apps.get("cos", []):
+            ax.append(F["cos"](a) >= 1 - a * a / 2)
+            if any(a.eq(b) for b in apps.get("sin", [])):
+                ax.append(F["cos"](a) * F["cos"](a) + F["sin"](a) * F["sin"](a) == 1)
+        for a in apps.get("sin", []):
+            s = F["sin"](a)
+            ax += [z3.Implies(a >= 0, z3.And(s <= a, s >= -a)), z3.Implies(a <= 0, z3.And(s >= a, s <= -a))]
+    return ax
